@@ -138,7 +138,8 @@ def gen_penalties(rng, n, transcendental=False):
                 grad = np.array([rng.choice(VALS) for _ in range(k)])
                 # value
                 fn = f"{cname}_value"
-                chk = "chk_E" if cname in ("IndicatorBox", "PositiveConstraint") else "chk_F"
+                chk = "chk_E" if cname in ("IndicatorBox", "PositiveConstraint", "L1", "L1_plus_L2", "WeightedL1",
+                                           "MCPenalty", "WeightedMCPenalty") else "chk_F"
                 r = call_impl(obj.value, w)
                 cases.append((f"{fn}({fd},{list(w)})", f"{fn} {fields_of(sig, fn, fd)} {vq(w)}", chk, xq(r)))
                 # subdiff_distance
